@@ -1,4 +1,5 @@
 import Rivaas.Lemmas.OpenAPIPath
+set_option linter.unusedSimpArgs false
 /-
 C07 — helper lemmas: the parameter list of an operation (request metadata with the (in, name)
 de-duplication of K07g, then the route's remaining path parameters).
